@@ -353,3 +353,15 @@ def bool_arms(t):
     if f is None or tr is None or len(d) != 2:
         return None
     return t[1], f, tr
+
+
+
+def verdict_of(errs):
+    """messages starting with '?' say "shape not recognised": alone they make an instance undecided, never a violation"""
+    if not errs:
+        return OK
+    return UNDECIDED if all(e.startswith("?") for e in errs) else VIOLATION
+
+
+def errtext(errs):
+    return "; ".join(e.lstrip("?") for e in errs)
